@@ -26,7 +26,8 @@ For each change k in (1, 2) deliver, in {wt}/_seed/k/ :
   - notes.md   : which clause of the property it breaks, what exactly is needed for it to manifest, and the exact test commands you ran with their outcome.
 
 How to verify (you must actually do this):
-  1. demo.py fails with the change and passes without it (use `git stash` / `git stash pop`, or `git apply -R`).
+  1. demo.py fails with the change and passes without it. Toggle your change ONLY with `git apply _seed/k/patch.diff` and `git apply -R _seed/k/patch.diff` (or `git checkout -- src`); NEVER use `git stash` -- the stash is shared with other people's worktrees of this repository and their changes would get mixed into yours.
+  (Note: in this environment `pytest -n 4` given explicit test paths may report "no tests ran": run single test files without -n, and the full suite with -n 4 and no paths.)
   2. the test files for the touched modules pass:  cd {wt} && PYTHONPATH={wt}/src /venv/bin/python -m pytest -q -p no:cacheprovider -x tests/<relevant files>
   3. the full suite once per change:  cd {wt} && PYTHONPATH={wt}/src /venv/bin/python -m pytest -q -p no:cacheprovider -n 4 --timeout=900 2>&1 | tail -15   (several minutes). Seven tests that need the network fail on the unchanged tree as well (test_open_url*, test_open_url_compressed, test_line_based_url, test_get_app_tree_is_url): ignore exactly those. If your change makes any other test fail, pick a different change.
 When you finish, leave the worktree clean of source changes (git checkout -- src) but keep the _seed directory. Reply with a short summary of the two changes.""")
